@@ -489,6 +489,10 @@ def const_pool(r, version, mode, big):
              lambda: pt.Bytes("k0"), lambda: pt.Bytes("k1")]
     pk = bytes(r.randrange(256) for _ in range(32))
     byts += [lambda: pt.Addr(encoding.encode_address(pk)), lambda: pt.Bytes(pk), lambda: pt.Global.zero_address() if False else pt.Bytes(pk)]
+    # an address whose TEXT begins with the letters of a template placeholder (`TMPL...`, no underscore: it is an ordinary address)
+    pk2 = bytes([0x9B, 0x1E, 0xB0 | r.randrange(16)]) + bytes(r.randrange(256) for _ in range(29))
+    assert encoding.encode_address(pk2).startswith("TMPL")
+    byts += [lambda: pt.Addr(encoding.encode_address(pk2)), lambda: pt.Bytes(pk2)]
     if version >= 4 and mode == "app":
         sig = r.choice(SIGS)
         sel = sha512_256(sig.encode())[:4]
